@@ -558,6 +558,12 @@ func (fr *Frame) storeInstr(x *ssa.Store, st *State) {
 	if loc := fr.ptrLoc(p); loc != nil && loc.Kind == locCell && (v.Clo != nil || v.Loc != nil) {
 		fr.cellMeta[loc.Base] = v
 	}
+	if loc := fr.ptrLoc(p); loc != nil && loc.Kind == locCell {
+		if fr.cellVal == nil {
+			fr.cellVal = map[string]string{}
+		}
+		fr.cellVal[loc.Base] = v.T
+	}
 	fr.store(st, p, v, x.Pos())
 }
 
@@ -1102,6 +1108,9 @@ func (fr *Frame) unop(v *ssa.UnOp, st *State) {
 			if m, ok := fr.cellMeta[loc.Base]; ok {
 				nv.Clo, nv.Loc = m.Clo, m.Loc
 			}
+			if m, ok := fr.cellVal[loc.Base]; ok && e.localRefs[m] {
+				e.localRefs[nv.T] = true
+			}
 		}
 	case token.NOT:
 		fr.bind(v, sNot(x.T))
@@ -1347,8 +1356,13 @@ func (fr *Frame) runDefers(st *State) *State {
 		// merge: effects apply only if the defer was registered
 		notTaken := before
 		notTaken.pc = e.define("pc_nodefer_"+fr.prefix, "Bool", sAnd(st.pc, sNot(d.flag)))
+		// paths on which the deferred call does not return (panic) end here: keep the merged path condition
+		if fr.stopped {
+			fr.stopped = false
+			st = notTaken
+			continue
+		}
 		m := e.mergeStates("defer_"+fr.prefix, []*State{inner, notTaken})
-		m.pc = st.pc
 		st = m
 	}
 	return st
